@@ -130,7 +130,8 @@ def check(report, tier, only=None):
     _check_e1(report, tier, only)
     report.trusted += ['z3 5.1', 'finite-map model of HashMap', 'Connection accessors uninterpreted (checked by C04 connection_accessors)']
     from props import handler
-    for f in (ob_compose, ob_late_exit, lambda rep: handler.ob_add_peer(rep, 'C05'), lambda rep: handler.ob_handler_tail(rep, 'C05')):
+    # add_transition: the surviving connection is the one that is registered AND the one returned to be served (its handler is started)
+    for f in (ob_compose, ob_late_exit, C04.ob_add, lambda rep: handler.ob_add_peer(rep, 'C05'), lambda rep: handler.ob_handler_tail(rep, 'C05')):
         if only and not any(s in getattr(f, '__name__', 'handler') for s in only):
             continue
         f(report)
